@@ -255,42 +255,11 @@ def keyBytes (k : Key) : Bytes := keyBytesAux k k []
     twice: exponential in the number of class-body bytes that differ from the byte looked for; a 300-byte
     pattern with an unclosed `[` made the C03 driver hang.)  Equal to it: `Lemmas/ShardsStr.lean`
     `classScanF_eq`. -/
-def classScanF (c : Nat) : List Nat → Bool × List Nat
-  | [] => (false, [])
-  | 92 :: x :: rest => let r := classScanF c rest; ((c == x) || r.1, r.2)
-  | 93 :: rest => (false, rest)
-  | [x] => (c == x, [])
-  | [x, y] => let r := classScanF c [y]; ((c == x) || r.1, r.2)
-  | lo :: 45 :: hi :: rest =>
-    let r := classScanF c rest
-    ((decide (min lo hi ≤ c) && decide (c ≤ max lo hi)) || r.1, r.2)
-  | x :: y :: z :: rest => let r := classScanF c (y :: z :: rest); ((c == x) || r.1, r.2)
+def classScanF (c : Nat) (p : List Nat) : Bool × List Nat := RedisX.classScan c p
 
-/-- `RedisX.globFuel` over `classScanF` -/
-def globFuelF : Nat → List Nat → List Nat → Bool
-  | 0, _, _ => false
-  | _ + 1, [], s => s.isEmpty
-  | n + 1, 42 :: p, s =>
-    globFuelF n p s || (match s with | [] => false | _ :: s' => globFuelF n (42 :: p) s')
-  | n + 1, 63 :: p, s =>
-    match s with
-    | [] => false
-    | _ :: s' => globFuelF n p s'
-  | n + 1, 91 :: p, s =>
-    match s with
-    | [] => false
-    | c :: s' =>
-      match p with
-      | 94 :: p' => let r := classScanF c p'; !r.1 && globFuelF n r.2 s'
-      | _ => let r := classScanF c p; r.1 && globFuelF n r.2 s'
-  | n + 1, 92 :: x :: p, s =>
-    match s with
-    | [] => false
-    | c :: s' => c == x && globFuelF n p s'
-  | n + 1, x :: p, s =>
-    match s with
-    | [] => false
-    | c :: s' => c == x && globFuelF n p s'
+/-- `RedisX.globFuel` (since session 4 `RedisX.classScan` / `globFuel` themselves bind every
+    recursive call once, so the separate copies that lived here are gone: one matcher) -/
+def globFuelF (n : Nat) (p s : List Nat) : Bool := RedisX.globFuel n p s
 
 /-- `CommandExecutor::glob_match` (src/redis/executor/mod.rs) since the fixes 2ad439d / 0e17d33:
     the matcher scans a class once as Redis' `stringmatchlen` does (`\\x` literal inside and outside a
